@@ -281,7 +281,9 @@ class SAC(OffPolicyAlgorithm):
             self.actor.optimizer.step()
 
             # Update target networks
-            if gradient_step % self.target_update_interval == 0:
+            # Note: count the gradient steps over all calls to train(),
+            # ``self._n_updates`` is only incremented after the loop
+            if (self._n_updates + gradient_step) % self.target_update_interval == 0:
                 polyak_update(self.critic.parameters(), self.critic_target.parameters(), self.tau)
                 # Copy running stats, see GH issue #996
                 polyak_update(self.batch_norm_stats, self.batch_norm_stats_target, 1.0)
